@@ -1,3 +1,404 @@
--- stub: the driver of C15 is not built yet
+/-
+  Line-protocol driver of C15 (CQRS buses and processors).
+
+    bus  <c|e> <name> <topic> <hook> <mod> <pub> <enc> <info>
+         name  hex of Marshaler.Name(v)          topic  p:<hex prefix> (prefix ++ name) | k:<hex> (constant) | err
+         hook  n|o|e  (OnSend/OnPublish: none, ok (sets x-hook=1), error)     mod  n|o|e (modify of SendWithModifiedMessage)
+         pub   o|e    (publisher result)          enc    hex of the library encoding | x (Marshal fails)
+      observation: effect tokens  T:<name>  H:<name>:<meta>:<payload>  M:<meta>:<payload>  P:<topic>:<meta>:<payload>
+                   followed by  R:<ok|marshal|topic|hook|modify|publish>
+
+    proc <c|e|g> <flags> <oh> <reg> <info> <msg>*
+         flags  <AckCommandHandlingErrors><AckOnUnknownEvent> as 0/1     oh  n|p (OnHandle nil / pass-through)
+         reg    <namehex>.<ty>,…     msg  <meta>/<payload>/<ctx n|s>/<dec per Go type: x|hex,…>/<outcomes o|e|p per handler>/<sent -|ty.hex>
+      observation: one token per message; deliveries joined by `|`; delivery = <invocations>=<a|n|t>;
+                   invocations = - | <handler>.<value hex>.<o|s|z>,…   (o: OriginalMessageFromCtx = the delivered message)
+
+  `M` answers with the model (WmModel/Cqrs.lean), `P` evaluates the property's clauses on the observation without
+  calling the model's decision functions.
+-/
 import WmModel.Basic
-def main : IO Unit := Wm.driverMain (fun _ => "bad-op")
+import WmModel.Cqrs
+open Wm Wm.Cqrs
+
+def hexStr (s : String) : String := hexEnc s.toUTF8.toList
+
+def unhexStr (h : String) : Option String := do
+  let bs ← hexDec h
+  String.fromUTF8? (ByteArray.mk bs.toArray)
+
+/-- canonical metadata: sorted by key, `k=v` in hex, comma separated, `-` when empty (wh.Meta) -/
+def insertSorted (p : String × String) : List (String × String) → List (String × String)
+  | [] => [p]
+  | q :: r => if p.1 < q.1 then p :: q :: r else q :: insertSorted p r
+
+def metaStr (md : Meta) : String :=
+  -- keep the first binding of every key (Go map), then sort
+  let dedup := md.foldl (fun acc p => if acc.any (fun q => q.1 == p.1) then acc else acc ++ [p]) []
+  let sorted := dedup.foldr insertSorted []
+  if sorted.isEmpty then "-" else
+  ",".intercalate (sorted.map (fun p => hexStr p.1 ++ "=" ++ hexStr p.2))
+
+def parseMeta (s : String) : Option Meta :=
+  if s = "-" then some [] else
+  (s.splitOn ",").mapM (fun kv =>
+    match kv.splitOn "=" with
+    | [k, v] => do pure ((← unhexStr k), (← unhexStr v))
+    | _ => none)
+
+/-! ### bus -/
+
+def parseTopic (s : String) : Option (String → Option String) :=
+  if s = "err" then some (fun _ => none) else
+  match s.splitOn ":" with
+  | ["p", h] => do let p ← unhexStr h; pure (fun n => some (p ++ n))
+  | ["k", h] => do let p ← unhexStr h; pure (fun _ => some p)
+  | _ => none
+
+def parseCallback (key : String) (s : String) : Option (Option Callback) :=
+  match s with
+  | "n" => some none
+  | "o" => some (some (some (fun md => metaSet md key "1")))
+  | "e" => some (some none)
+  | _ => none
+
+def effStr : BusEff → String
+  | .topicGen n => "T:" ++ hexStr n
+  | .hook n md p => "H:" ++ hexStr n ++ ":" ++ metaStr md ++ ":" ++ hexEnc p
+  | .modify md p => "M:" ++ metaStr md ++ ":" ++ hexEnc p
+  | .publish t md p => "P:" ++ hexStr t ++ ":" ++ metaStr md ++ ":" ++ hexEnc p
+
+def errStr : Option BusErr → String
+  | none => "ok" | some .marshal => "marshal" | some .topic => "topic" | some .hook => "hook"
+  | some .modify => "modify" | some .publish => "publish"
+
+structure BusReq where
+  isCmd : Bool
+  name : String
+  topicSpec : String
+  topicOf : String → Option String
+  hookS : String
+  modS : String
+  pubOk : Bool
+  enc : Option Bytes
+
+def parseBus : List String → Option BusReq
+  | [b, name, topic, hook, mod, pub, enc, _info] => do
+    let isCmd ← (match b with | "c" => some true | "e" => some false | _ => none)
+    let name ← unhexStr name
+    let topicOf ← parseTopic topic
+    let _ ← parseCallback "x" hook
+    let _ ← parseCallback "x" mod
+    if !isCmd && mod != "n" then none
+    let pubOk ← (match pub with | "o" => some true | "e" => some false | _ => none)
+    let enc ← (if enc = "x" then some none else (hexDec enc).map some)
+    pure ⟨isCmd, name, topic, topicOf, hook, mod, pubOk, enc⟩
+  | _ => none
+
+def busModel (r : BusReq) : String :=
+  match parseCallback "x-hook" r.hookS, parseCallback "x-mod" r.modS with
+  | some hook, some mod =>
+    let cfg : BusCfg Unit := ⟨fun _ => r.enc, fun _ => r.name, r.topicOf, hook, mod, r.pubOk⟩
+    let (effs, res) := send cfg ()
+    " ".intercalate (effs.map effStr ++ ["R:" ++ errStr res])
+  | _, _ => "bad-op"
+
+/-- the bus clause of the property on the observed effect tokens -/
+def busMonitor (r : BusReq) (obs : List String) : String := Id.run do
+  let some resTok := obs.getLast? | return "bad-op"
+  if !resTok.startsWith "R:" then return "bad-op"
+  let res := (resTok.drop 2).toString
+  let effs := obs.dropLast
+  let pubs := effs.filter (·.startsWith "P:")
+  let hookIdx := effs.findIdx? (·.startsWith "H:")
+  let pubIdx := effs.findIdx? (·.startsWith "P:")
+  -- published at most once, exactly once when the send succeeded
+  if pubs.length > 1 then return "violated:bus_publishes_once"
+  if res == "ok" && pubs.length != 1 then return "violated:bus_publishes_once"
+  -- a send can only succeed when everything before the publish succeeded and the publisher accepted
+  if res == "ok" && (r.enc.isNone || (r.topicOf r.name).isNone || r.hookS == "e" || r.modS == "e" || !r.pubOk) then
+    return "violated:bus_error_reported"
+  -- nothing fails: the send succeeds
+  if res != "ok" && r.enc.isSome && (r.topicOf r.name).isSome && r.hookS != "e" && r.modS != "e" && r.pubOk then
+    return "violated:bus_publishes_once"
+  -- the hook runs before the publish, its error aborts
+  if r.hookS == "e" && pubs.length != 0 then return "violated:bus_hook_error_aborts"
+  if r.modS == "e" && pubs.length != 0 then return "violated:bus_hook_error_aborts"
+  match hookIdx, pubIdx with
+  | some h, some p => if p < h then return "violated:bus_hook_before_publish"
+  | none, some _ => if r.hookS != "n" then return "violated:bus_hook_before_publish"
+  | _, _ => pure ()
+  -- the one publish: generated topic, metadata name = type name, payload = encoding
+  match pubs with
+  | [p] =>
+    match p.splitOn ":" with
+    | [_, topic, md, payload] =>
+      let some topicWant := r.topicOf r.name | return "violated:bus_topic"
+      if topic != hexStr topicWant then return "violated:bus_topic"
+      let some md := parseMeta md | return "bad-op"
+      if md.lookup "name" != some r.name then return "violated:bus_name_metadata"
+      let some encWant := r.enc | return "violated:bus_payload"
+      if payload != hexEnc encWant then return "violated:bus_payload"
+      return "ok"
+    | _ => return "bad-op"
+  | _ => return "ok"
+
+/-! ### processors -/
+
+structure MsgReq where
+  md : Meta
+  payload : Bytes
+  stale : Bool
+  dec : List (Option Bytes)
+  outs : List Outcome
+  sent : Option (Nat × Bytes)
+
+structure ProcReq where
+  kind : Kind
+  fl : Flags
+  oh : String
+  reg : List Handler
+  msgs : List MsgReq
+
+def parseKind : String → Option Kind
+  | "c" => some .command | "e" => some .event | "g" => some .group | _ => none
+
+def parseFlags (s : String) : Option Flags :=
+  match s.toList with
+  | [a, b] => do
+    let a ← (match a with | '0' => some false | '1' => some true | _ => none)
+    let b ← (match b with | '0' => some false | '1' => some true | _ => none)
+    pure ⟨a, b⟩
+  | _ => none
+
+def parseReg (s : String) : Option (List Handler) :=
+  if s = "-" then some [] else
+  (s.splitOn ",").mapM (fun e =>
+    match e.splitOn "." with
+    | [n, t] => do pure ⟨(← unhexStr n), (← t.toNat?)⟩
+    | _ => none)
+
+def parseOutcome : Char → Option Outcome
+  | 'o' => some .ok | 'e' => some .err | 'p' => some .panic | _ => none
+
+def parseMsg (s : String) : Option MsgReq :=
+  match s.splitOn "/" with
+  | [md, payload, ctx, dec, outs, sent] => do
+    let md ← parseMeta md
+    let payload ← hexDec payload
+    let stale ← (match ctx with | "n" => some false | "s" => some true | _ => none)
+    let dec ← (dec.splitOn ",").mapM (fun d => if d = "x" then some none else (hexDec d).map some)
+    let outs ← (if outs = "-" then some [] else outs.toList.mapM parseOutcome)
+    let sent ← (if sent = "-" then some none else
+      match sent.splitOn "." with
+      | [t, v] => do pure (some ((← t.toNat?), (← hexDec v)))
+      | _ => none)
+    pure ⟨md, payload, stale, dec, outs, sent⟩
+  | _ => none
+
+def parseProc : List String → Option ProcReq
+  | k :: fl :: oh :: reg :: _info :: msgs => do
+    let k ← parseKind k
+    let fl ← parseFlags fl
+    if oh != "n" && oh != "p" then none
+    let reg ← parseReg reg
+    let msgs ← msgs.mapM parseMsg
+    -- every message scripts an outcome for every handler
+    if msgs.any (fun m => m.outs.length != reg.length) then none
+    pure ⟨k, fl, oh, reg, msgs⟩
+  | _ => none
+
+def settleChar : Settle → String
+  | .ack => "a" | .nack => "n"
+
+def invStr (msgId : Nat) (i : Invocation Bytes) : String :=
+  toString i.h ++ "." ++ hexEnc i.value ++ "." ++
+    (match i.orig with
+     | none => "z"
+     | some x => if x = msgId then "o" else "s")
+
+def deliveryStr (msgId : Nat) (d : Delivery Bytes) : String :=
+  (if d.inv.isEmpty then "-" else ",".intercalate (d.inv.map (invStr msgId))) ++ "=" ++ settleChar d.settle
+
+def toMsg (m : MsgReq) : Msg :=
+  { id := 1, md := m.md, payload := m.payload,
+    ctx := if m.stale then [(CtxKey.other 0, 7), (CtxKey.originalMessage, 2)] else [(CtxKey.other 0, 7)],
+    out := fun i => (m.outs[i]?).getD .ok }
+
+def procModel (r : ProcReq) : String :=
+  if r.msgs.isEmpty then "-" else
+  " ".intercalate (r.msgs.map (fun m =>
+    let codec : Codec Bytes := ⟨fun ty _ => (m.dec[ty]?).getD none⟩
+    "|".intercalate ((processMsg codec r.kind r.fl r.reg (toMsg m)).map (deliveryStr 1))))
+
+/-- observed invocation -/
+structure ObsInv where
+  h : Nat
+  value : String
+  orig : String
+
+structure ObsDel where
+  inv : List ObsInv
+  settle : String
+
+def parseObsDel (s : String) : Option ObsDel :=
+  match s.splitOn "=" with
+  | [invs, st] => do
+    let inv ← (if invs = "-" then some [] else
+      (invs.splitOn ",").mapM (fun i =>
+        match i.splitOn "." with
+        | [h, v, o] => do pure (⟨← h.toNat?, v, o⟩ : ObsInv)
+        | _ => none))
+    if st != "a" && st != "n" && st != "t" then none
+    pure ⟨inv, st⟩
+  | _ => none
+
+/-- the monitor's own reading of the message name: the value under the metadata key `name`, "" when absent -/
+def obsName (md : Meta) : String :=
+  match md.find? (fun p => p.1 == "name") with
+  | some p => p.2
+  | none => ""
+
+def decOf (m : MsgReq) (ty : Nat) : Option Bytes := (m.dec[ty]?).getD none
+def outOf (m : MsgReq) (i : Nat) : Outcome := (m.outs[i]?).getD .ok
+
+/-- clauses about one invocation: value equal to the decoded / sent one, original message in the context -/
+def checkInv (m : MsgReq) (h : Handler) (i : ObsInv) : Option String :=
+  match decOf m h.ty with
+  | none => some "violated:invoked_iff_name_matches"     -- invoked although there is no value to invoke it with
+  | some v =>
+    if i.value != hexEnc v then some "violated:value_equal"
+    else if (match m.sent with | some (t, sv) => t == h.ty && i.value != hexEnc sv | none => false) then some "violated:value_equal_sent"
+    else if i.orig != "o" then some "violated:original_message_in_ctx"
+    else none
+
+/-- command / event processor: delivery to the subscription of handler `j` -/
+def monSingle (r : ProcReq) (m : MsgReq) (j : Nat) (h : Handler) (d : ObsDel) : Option String := Id.run do
+  if d.settle == "t" then return some "violated:settled"
+  let nm := obsName m.md
+  -- nobody but handler j, and at most once
+  if d.inv.any (fun i => i.h != j) then return some "violated:invoked_iff_name_matches"
+  if d.inv.length > 1 then return some "violated:invoked_iff_name_matches"
+  if nm != h.tyName then
+    if !d.inv.isEmpty then return some "violated:invoked_iff_name_matches"
+    let want := if r.kind == .command then "a" else if r.fl.ackUnknown then "a" else "n"
+    if d.settle != want then return some "violated:ack_unknown"
+    return none
+  match decOf m h.ty with
+  | none =>
+    if !d.inv.isEmpty then return some "violated:invoked_iff_name_matches"
+    if d.settle != "n" then return some "violated:decode_error_nack"
+    return none
+  | some _ =>
+    match d.inv with
+    | [i] =>
+      if let some e := checkInv m h i then return some e
+      match outOf m j with
+      | .ok => if d.settle != "a" then return some "violated:ack_handled"
+      | .err =>
+        let want := if r.kind == .command && r.fl.ackCmdErr then "a" else "n"
+        if d.settle != want then return some "violated:handler_error_policy"
+      | .panic => pure ()
+      return none
+    | _ => return some "violated:invoked_iff_name_matches"
+
+def isPrefix : List Nat → List Nat → Bool
+  | [], _ => true
+  | _ :: _, [] => false
+  | a :: as, b :: bs => a == b && isPrefix as bs
+
+/-- group processor: one delivery -/
+def monGroup (r : ProcReq) (m : MsgReq) (d : ObsDel) : Option String := Id.run do
+  if d.settle == "t" then return some "violated:settled"
+  let nm := obsName m.md
+  let idx := (List.range r.reg.length).zip r.reg
+  let matching := (idx.filter (fun p => p.2.tyName == nm)).map (·.1)
+  let invoked := d.inv.map (·.h)
+  -- only matching handlers
+  if invoked.any (fun i => !matching.contains i) then return some "violated:invoked_iff_name_matches"
+  -- registration order, none skipped, none twice
+  if !isPrefix invoked matching then return some "violated:group_order_prefix"
+  -- per invocation: value, context
+  for i in d.inv do
+    match r.reg[i.h]? with
+    | none => return some "violated:invoked_iff_name_matches"
+    | some h => if let some e := checkInv m h i then return some e
+  -- stops at the first error: nobody is called after a handler that failed
+  let failedEarlier : Bool := (invoked.dropLast).any (fun i => outOf m i != .ok)
+  if failedEarlier then return some "violated:group_stops_at_first_error"
+  let lastFailed : Bool := match invoked.getLast? with
+    | some i => outOf m i != .ok
+    | none => false
+  let lastPanicked : Bool := match invoked.getLast? with
+    | some i => outOf m i == .panic
+    | none => false
+  -- does not stop without a reason: the next matching handler, if any, must be one the message does not decode for
+  let next := (matching.drop invoked.length).head?
+  let mut stoppedOnDecode := false
+  if !lastFailed then
+    match next with
+    | none => pure ()
+    | some j =>
+      match r.reg[j]? with
+      | none => return some "bad-op"
+      | some h =>
+        if (decOf m h.ty).isSome then return some "violated:invoked_iff_name_matches"
+        stoppedOnDecode := true
+  -- settlement
+  if lastPanicked then return none
+  if lastFailed then
+    if d.settle != "n" then return some "violated:handler_error_policy"
+    return none
+  if stoppedOnDecode then
+    if d.settle != "n" then return some "violated:decode_error_nack"
+    return none
+  if !matching.isEmpty then
+    if d.settle != "a" then return some "violated:ack_handled"
+    return none
+  let want := if r.fl.ackUnknown then "a" else "n"
+  if d.settle != want then return some "violated:ack_unknown"
+  return none
+
+def procMonitor (r : ProcReq) (obs : List String) : String := Id.run do
+  let obs := if obs == ["-"] then [] else obs
+  if obs.length != r.msgs.length then return "violated:length"
+  for (m, o) in r.msgs.zip obs do
+    let some dels := (o.splitOn "|").mapM parseObsDel | return "bad-op"
+    match r.kind with
+    | .group =>
+      match dels with
+      | [d] => if let some e := monGroup r m d then return e
+      | _ => return "violated:length"
+    | _ =>
+      if dels.length != r.reg.length then return "violated:length"
+      let idx := (List.range r.reg.length).zip r.reg
+      for ((j, h), d) in idx.zip dels do
+        if let some e := monSingle r m j h d then return e
+  return "ok"
+
+def splitObs (l : List String) : List String × List String :=
+  (l.takeWhile (· != "##"), (l.dropWhile (· != "##")).drop 1)
+
+def handle (line : String) : String :=
+  match line.splitOn " " with
+  | "M" :: "bus" :: rest =>
+    match parseBus rest with
+    | some r => busModel r
+    | none => "bad-op"
+  | "P" :: "bus" :: rest =>
+    let (req, obs) := splitObs rest
+    match parseBus req with
+    | some r => if obs.isEmpty then "bad-op" else busMonitor r obs
+    | none => "bad-op"
+  | "M" :: "proc" :: rest =>
+    match parseProc rest with
+    | some r => procModel r
+    | none => "bad-op"
+  | "P" :: "proc" :: rest =>
+    let (req, obs) := splitObs rest
+    match parseProc req with
+    | some r => if obs.isEmpty then "bad-op" else procMonitor r obs
+    | none => "bad-op"
+  | _ => "bad-op"
+
+def main : IO Unit := driverMain handle
